@@ -20,6 +20,7 @@ func init() {
 			ruleDefaultOnlyWhenAbsent(r)
 			ruleTimeParams(r)
 			ruleOpenLog(r) // the resolved range is what the daemon is asked for: since/until spell the same instants
+			ruleIsInstant(r)
 		},
 	})
 }
